@@ -8,7 +8,7 @@ ID = 'C16'
 LEVEL = 'exploration'
 EXHAUSTIVE = False
 RULE = ('exhaustive over every integer difference in [-20000, 20000] (quick) / [-200000, 200000] (thorough) '
-        'plus Hypothesis integers of arbitrary magnitude (up to 2**200) and pairs for the two-score form; '
+        'plus Hypothesis integers of arbitrary magnitude (up to 10**5000, and around every power of two up to 2**1100 - beyond what a float holds) and pairs for the two-score form (independent, equal, opposite and near-opposite scores); each exhaustive range is walked a second time in descending strided order; '
         'oracle = WBF scale bands in vf/model/imps.py, range [-24,24], oddness f(-d) = -f(d), monotonicity on '
         'adjacent integers (exhaustive range) and on generated ordered pairs, score_to_imp(a,b) = f(a+b). '
         'Non-trivial = difference that is not a multiple of 10, or |d| > 5000, or within 1 of a scale threshold; '
@@ -73,8 +73,10 @@ def _mono(a, b, stats=None):
             stats.cls('ordered pair straddling a threshold')
 
 
-SCORES = st.one_of(st.integers(-8000, 8000), st.integers(-760, 760).map(lambda x: x * 10),
-                   st.integers(-2 ** 200, 2 ** 200))
+HUGE = st.one_of(st.integers(-2 ** 200, 2 ** 200),
+                 st.tuples(st.sampled_from([1, -1]), st.integers(60, 1100), st.integers(-3, 3)).map(lambda t: t[0] * (2 ** t[1] + t[2])),   # around powers of two up to 2**1100 (beyond what a float can hold)
+                 st.tuples(st.sampled_from([1, -1]), st.integers(20, 5000)).map(lambda t: t[0] * 10 ** t[1]))
+SCORES = st.one_of(st.integers(-8000, 8000), st.integers(-760, 760).map(lambda x: x * 10), HUGE)
 NEAR = st.builds(lambda t, d, s: s * (t + d), st.sampled_from(M.THRESHOLDS), st.integers(-12, 12),
                  st.sampled_from([1, -1]))
 
@@ -137,7 +139,9 @@ def run_shard(spec, seed, tier, stats):
 
 
 def replay(rec):
-    c = rec['case']
+    from vf.common.core import unbig
+    c = {k: unbig(v) for k, v in rec['case'].items()}
+    rec = dict(rec, case=c)
     if 'concurrent_program' in c:
         from vf.props import _concurrent as CC
         return CC.replay(rec, concurrent_programs())
